@@ -248,3 +248,107 @@ impl World {
         Ok(())
     }
 }
+
+impl World {
+    fn dummy_block_txs(height: u32) -> Vec<lightning_signer::bitcoin::Transaction> {
+        use lightning_signer::bitcoin::absolute::LockTime;
+        use lightning_signer::bitcoin::transaction::Version;
+        vec![lightning_signer::bitcoin::Transaction {
+            version: Version::non_standard(0),
+            lock_time: LockTime::from_consensus(height),
+            input: vec![],
+            output: vec![],
+        }]
+    }
+
+    fn persist_tracker(&self) -> Result<(), String> {
+        let node = &self.node;
+        let tracker = node.get_tracker();
+        node.get_persister()
+            .update_tracker(&node.get_id(), &tracker)
+            .map_err(|e| format!("persist tracker: {:?}", e))
+    }
+
+    /// An add_block request that must be refused.  kind 0: orphan (random prev hash),
+    /// 1: proof built for another block, 2: inline full-block proof (unsupported).
+    /// Returns Ok(()) if the tracker ACCEPTED it (the caller decides what that means).
+    pub fn add_bad_block(&self, kind: u8, salt: u64) -> Result<(), String> {
+        use lightning_signer::bitcoin::hashes::Hash;
+        use lightning_signer::bitcoin::{merkle_tree, Block, BlockHash, TxMerkleNode};
+        use lightning_signer::txoo::proof::TxoProof;
+        use lightning_signer::util::test_utils::mine_header_with_bits;
+        let r = {
+            let mut tracker = self.node.get_tracker();
+            let height = tracker.height();
+            let tip = tracker.tip().clone();
+            let txs = Self::dummy_block_txs(height + 1);
+            let root = merkle_tree::calculate_root(txs.iter().map(|t| t.compute_txid().to_raw_hash())).unwrap();
+            let root = TxMerkleNode::from_raw_hash(root.into());
+            let bits = tip.0.bits;
+            match kind {
+                0 => {
+                    let mut h = [0x5au8; 32];
+                    h[..8].copy_from_slice(&salt.to_le_bytes());
+                    let header = mine_header_with_bits(BlockHash::from_byte_array(h), root, bits);
+                    let block = Block { header, txdata: txs };
+                    let proof = TxoProof::prove_unchecked(&block, &tip.1, height + 1);
+                    tracker.add_block(header, proof)
+                }
+                1 => {
+                    let header = mine_header_with_bits(tip.0.block_hash(), root, bits);
+                    let other_txs = Self::dummy_block_txs(height + 1000 + (salt % 1000) as u32);
+                    let oroot = merkle_tree::calculate_root(other_txs.iter().map(|t| t.compute_txid().to_raw_hash())).unwrap();
+                    let oheader = mine_header_with_bits(tip.0.block_hash(), TxMerkleNode::from_raw_hash(oroot.into()), bits);
+                    let other = Block { header: oheader, txdata: other_txs };
+                    let proof = TxoProof::prove_unchecked(&other, &tip.1, height + 1);
+                    tracker.add_block(header, proof)
+                }
+                _ => {
+                    let header = mine_header_with_bits(tip.0.block_hash(), root, bits);
+                    let block = Block { header, txdata: txs };
+                    let mut proof = TxoProof::prove_unchecked(&block, &tip.1, height + 1);
+                    proof.proof = lightning_signer::txoo::proof::ProofType::Block(block.clone());
+                    tracker.add_block(header, proof)
+                }
+            }
+        };
+        match r {
+            Ok(()) => {
+                self.persist_tracker()?;
+                Ok(())
+            }
+            Err(e) => Err(format!("{:?}", e)),
+        }
+    }
+
+    /// Disconnect the tip (it must be one of the empty blocks made by add_empty_block).
+    /// `bad`: 0 = correct request, 1 = wrong previous header, 2 = proof for another block
+    pub fn remove_tip_block(&self, bad: u8) -> Result<(), String> {
+        use lightning_signer::bitcoin::Block;
+        use lightning_signer::chain::tracker::Headers;
+        use lightning_signer::txoo::proof::TxoProof;
+        let r = {
+            let mut tracker = self.node.get_tracker();
+            let height = tracker.height();
+            if height == 0 || tracker.headers().is_empty() {
+                return Err("harness: nothing to remove".into());
+            }
+            let tip = tracker.tip().clone();
+            let mut prev: Headers = tracker.headers()[0].clone();
+            let txs = Self::dummy_block_txs(if bad == 2 { height + 500 } else { height });
+            let block = Block { header: tip.0, txdata: txs };
+            let proof = TxoProof::prove_unchecked(&block, &prev.1, height);
+            if bad == 1 {
+                prev = tip.clone();
+            }
+            tracker.remove_block(proof, prev).map(|_| ())
+        };
+        match r {
+            Ok(()) => {
+                self.persist_tracker()?;
+                Ok(())
+            }
+            Err(e) => Err(format!("{:?}", e)),
+        }
+    }
+}
